@@ -126,7 +126,10 @@ def build_job(job, work, verbose=False):
     if rc != 0:
         raise MachineryError("goto-cc failed (%s): %s" % (job["id"], (se or so)[-1500:]))
     cur = a
-    if job.get("drop_unused", True):
+    contract_mode = bool(job["enforce"] or job["enforce_rec"] or job["replace"] or job.get("loop_contracts")
+                         or job.get("apply_loop_contracts"))
+    # dfcc removes unused functions itself, and must still see spec functions that only contracts call
+    if job.get("drop_unused", not contract_mode):
         b = os.path.join(work, "a1.gb")
         c = ["goto-instrument", "--drop-unused-functions", cur, b]
         cmds.append(c)
@@ -134,8 +137,6 @@ def build_job(job, work, verbose=False):
         if rc != 0:
             raise MachineryError("drop-unused failed: " + (se or so)[-800:])
         cur = b
-    contract_mode = bool(job["enforce"] or job["enforce_rec"] or job["replace"] or job.get("loop_contracts")
-                         or job.get("apply_loop_contracts"))
     if job.get("restrict_fp"):
         b = os.path.join(work, "a2.gb")
         c = ["goto-instrument"]
@@ -245,6 +246,11 @@ def run_job(job, tier, verbose=False, keep=None):
                 raise MachineryError("function without body and without contract: %s (add a contract or list it in nobody_ok)" % m.group(1))
         seen_loop_step = False
         for r in results:
+            if r.get("description") == "undefined function should be unreachable" and r.get("status") != "SUCCESS":
+                raise MachineryError("function %s is reached but has neither body nor contract (add an env stub or a contract)"
+                                     % r.get("property", "?").split(".")[0])
+            if "unwinding assertion" in r.get("description", "") and r.get("status") != "SUCCESS":
+                raise MachineryError("unwinding assertion failed: bound too small for %s" % r.get("property"))
             k = classify_prop(r)
             name = r.get("property", "?")
             st = r.get("status")
